@@ -222,6 +222,19 @@ Fixpoint matching_coords (p1 p2 : list (option bool)) (t1 t2 : idx) : res idx :=
   | _, _ => Ok []
   end.
 
+(* `sorted_idx = [np.argsort(idx) for idx in linear]`: BOTH inputs of every pairwise match are argsorted
+   (Gen/S_umath.v: s_match_coo_argsorts_inputs) — the left one is _match_coo's own previous intermediate, which
+   is not in order.  Without that fact the inputs would reach _match_arrays as they are. *)
+Definition input_order (srt : list Z -> list nat) (ks : list Z) : list nat :=
+  if s_match_coo_argsorts_inputs then srt ks else seq 0 (length ks).
+
+(* COO(coords, data, shape, sorted=flag, has_duplicates=False): with sorted=True the constructor keeps the
+   given order ("not truly sorted, but we don't need them"), otherwise it sorts by linear location *)
+Definition sort_rows {D} (sh : shape) (es : list (idx * D)) : list (idx * D) :=
+  map snd (isort key_leb (map (fun e => (ravel sh (fst e), e)) es)).
+Definition ctor_rows {D} (sorted : bool) (sh : shape) (es : list (idx * D)) : list (idx * D) :=
+  if sorted then es else sort_rows sh es.
+
 (* one step of the loop of _match_coo up to the call of _match_arrays: the pairs of positions
    (into coords1, into coords2) whose coordinates agree on the axes both operands really have *)
 Definition match_pairs (srt : list Z -> list nat) (sh1 : shape) (c1 : list idx) (sh2 : shape) (c2 : list idx)
@@ -235,8 +248,8 @@ Definition match_pairs (srt : list Z -> list nat) (sh1 : shape) (c1 : list idx) 
   let reduced_shape := select rp2 sh2 in
   let k1 := map (fun t => ravel reduced_shape (select rp1 t)) c1 in
   let k2 := map (fun t => ravel reduced_shape (select rp2 t)) c2 in
-  let s1 := srt k1 in
-  let s2 := srt k2 in
+  let s1 := input_order srt k1 in
+  let s2 := input_order srt k2 in
   let m := match_arrays (map (nthZ k1) s1) (map (nthZ k2) s2) in
   Ok (cur, p1, p2, map (fun ij => (nth (fst ij) s1 O, nth (snd ij) s2 O)) m).
 
@@ -261,7 +274,8 @@ Section Elemwise.
                let r1 := nth (fst ij) rows ([], []) in
                mc <- matching_coords p1 p2 (fst r1) (nth (snd ij) (c_coords a2) []) ;;
                Ok (mc, snd r1 ++ [nth (snd ij) (c_data a2) vzero])) pairs ;;
-    Ok (cur, rows').
+    if s_match_coo_ctor_has_duplicates then Raise OtherError          (* not what the source promises today *)
+    else Ok (cur, ctor_rows s_match_coo_ctor_sorted cur rows').
 
   (* _match_coo( *args, broadcast_shape=bsh) *)
   Definition match_coo (args : list (coo V)) (bsh : shape) : res mrows :=
@@ -274,7 +288,7 @@ Section Elemwise.
       else
         let params := bcast_params sh bsh in
         let '(coords, vals) := expand_coords_data (map fst rows) (map snd rows) params bsh in
-        Ok (combine coords vals)
+        Ok (ctor_rows s_match_coo_ctor_sorted bsh (combine coords vals))
     end.
 
   (* _match_coo(func_array, arg, return_midx=True)[0]: positions of func_array matched by arg *)
@@ -347,6 +361,8 @@ Section Elemwise.
                                                        (bcast_params mbs shape) shape in combine c d in
       if forallb (fun m => match m with Some false => false | _ => true end) mask then Ok (Some es)
       else
+        (* func_array = COO(func_coords, func_data, shape, has_duplicates=False, sorted=<generated flag>) *)
+        let es := ctor_rows s_func_array_ctor_sorted shape es in
         bad <- mapM (fun arg => match_coo_midx shape (map fst es) arg) unmatched ;;
         let bad := concat bad in
         Ok (Some (filter_pos (fun n => negb (existsb (Nat.eqb n) bad)) O es))
